@@ -62,7 +62,9 @@ def model_single(t, accept):
 
 AL = ['a', 'b', 'I', 'x', 'ä', 'я', 'ab', '1', '_', '.', ',', ' ', ' ', '\n', '\xa0', '\u202f', 'e.g.', 'z.B.', 'z.\u202fB.', 'e.\u202fg.', 'z.\xa0B.', '-',
       '(', ')', 'B-B-B', 'U-U-U', ';', ':', 'a.', 'x', 'y', '2x', 'x2', 'é', 'ǅ', 'e', 'g', '\t', 'a b c', 'x y z',
-      'm.\u202fa.\u202fW.', 'e. g. h.', 'a\xa0b\xa0x', 'c', 'W', 'z', 'h']
+      'm.\u202fa.\u202fW.', 'e. g. h.', 'a\xa0b\xa0x', 'c', 'W', 'z', 'h',
+      # characters outside the Basic Multilingual Plane (two UTF-16 code units each)
+      '\U0001d538', '\U0001f600 ']
 ACC = ['A|a|I|e.g.|i.e.', 'a|z.~B.|x', 'a b|b c', '', 'I', 'e.g.|g', 'a.|.b', 'x~y|a', 'z.|B.', 'e.|g.', 'a||b',
        'z.\\,B.|e.\\,g.', 'x|y|', 'ä|я', 'a b c|c', 'e.g.|e. g.', 'a b c|b', 'b|a b c', 'm.\\,a.\\,W.|a', 'x y z|y|z',
        'a b|a b c|c', 'e. g. h.|g', 'a~b~x|b']
@@ -492,6 +494,32 @@ class C20(core.Check):
                     detail.update(got=sorted(got), want=sorted(want))
                     return dict(ok=False, nt=True, key='shell:%s:location-or-context' % xmode, cnt=cnt, obs=None, detail=detail)
                 cnt['shell_xml_messages'] = len(got)
+        if not case.get('xml'):
+            # the same run as text report: the mark under the context line selects the same characters
+            cmdp = [a for a in cmd]
+            k = cmdp.index('--output')
+            cmdp[k + 1] = 'plain'
+            prp = subprocess.run(cmdp, capture_output=True, timeout=180, cwd=self.tmp, env=envx)
+            detail = dict(text=t, cmd=cmdp[2:], stderr=prp.stderr.decode('utf-8', 'replace')[-600:])
+            if prp.returncode != 0:
+                return dict(ok=False, nt=True, key='shell:plain:exit%d' % prp.returncode, cnt=cnt, obs=None, detail=detail)
+            rep = prp.stdout.decode('utf-8')
+            got = []
+            for mm in re.finditer(r'^\d+\.\) Line (\d+), column (\d+), Rule ID: PRIVATE::\S+\nMessage: [^\n]*\n'
+                                  r'Suggestion: [^\n]*\n([^\n]*)\n( *)(\^+)\n', rep, re.M):
+                ctxl, sp, car = mm.group(3), mm.group(4), mm.group(5)
+                got.append((int(mm.group(1)), int(mm.group(2)), ctxl[len(sp):len(sp) + len(car)]))
+            tt = t if t.endswith('\n') else t + '\n'
+            norm = lambda s: s.replace('\n', ' ').replace('\t', ' ')        # noqa
+            want = []
+            for m in ms:
+                if m['rule']['id'].startswith('PRIVATE::'):
+                    o, ln = m['offset'], m['length']
+                    want.append((tt.count('\n', 0, o) + 1, o - (tt.rfind('\n', 0, o) + 1) + 1, norm(tt[o:o + ln])))
+            if sorted(got) != sorted(want):
+                detail.update(got=sorted(got), want=sorted(want), report=rep[:1200])
+                return dict(ok=False, nt=True, key='shell:plain:location-or-mark', cnt=cnt, obs=None, detail=detail)
+            cnt['shell_plain_messages'] = len(got)
         cnt['shell_runs'] = 1
         return dict(ok=True, nt=bool(ms), key=None, cnt=cnt,
                     obs=dict(text=tex.short(t, 80), single=[m['offset'] for m in single], eq=[m['offset'] for m in eq]))
@@ -500,7 +528,7 @@ class C20(core.Check):
         return {'fam_single': 20000, 'fam_eq': 10000, 'single_messages': 20000, 'single_accepted_letters': 3000,
                 'eq_messages': 1500, 'shell_runs': 200, 'shell_accept_placeholders': 40, 'shelltex_runs': 100,
                 'shelltex_messages_in_later_parts': 100, 'shelltex_repeated_part': 15, 'shell_xml_messages': 300, 'shell_options_from_config_file': 60,
-                'shell_runs_with_coinciding_proofreader_match': 30, 'shell_xml_messages_over_line_break': 10}
+                'shell_runs_with_coinciding_proofreader_match': 30, 'shell_xml_messages_over_line_break': 10, 'shell_plain_messages': 100}
 
 
 CHECK = C20
